@@ -29,9 +29,9 @@ type c18env struct {
 	m    c18model
 }
 
-func c18keys() (keys [c18Pool][]byte) {
+func c18keys(variants int) (keys [c18Pool][]byte) {
 	lens := []int{1, 2, 1}
-	if vTier() == "thorough" {
+	if vTier() == "thorough" && variants > 1 {
 		if vChoice("lens", 2) == 1 {
 			lens = []int{2, 2, 2}
 		}
@@ -219,7 +219,7 @@ func C18_PrefixDB() {
 	// the view must neither depend on it nor write into it
 	given := make([]byte, plen, plen+8*vChoice("spare", 2))
 	copy(given, prefix)
-	e := &c18env{db: NewPrefixDB(base, given), keys: c18keys()}
+	e := &c18env{db: NewPrefixDB(base, given), keys: c18keys(1)}
 	// initial contents of the view, written straight into the base store: none, or all three pool keys
 	// (thorough tier: programs of two steps populate the view themselves)
 	if vTier() != "thorough" && vChoice("populated", 2) == 1 {
@@ -258,7 +258,7 @@ func (d *vDB) rawGet(key []byte) []byte {
 
 // C18_MemDB: the in-memory backend from source.
 func C18_MemDB() {
-	e := &c18env{db: NewMemDB(), keys: c18keys()}
+	e := &c18env{db: NewMemDB(), keys: c18keys(2)}
 	e.run(c18ops())
 	vCover("memdb-checked")
 }
@@ -321,7 +321,7 @@ func (s *c18ldbIter) Value() []byte {
 // C18_LevelIterAdapter: newGoLevelDBIterator over every stored subset and every (start,end,direction),
 // with the source created range-limited (as GoLevelDB.Iterator does) or unlimited.
 func C18_LevelIterAdapter() {
-	e := &c18env{keys: c18keys()}
+	e := &c18env{keys: c18keys(2)}
 	mask := vChoice("mask", 1<<c18Pool)
 	for i := 0; i < c18Pool; i++ {
 		if mask&(1<<uint(i)) != 0 {
